@@ -44,12 +44,18 @@ func main() {
 	case "probe":
 		ch := mon.Lookup(os.Args[2])
 		os.Exit(core.ProbeMain(ch, os.Args[3], os.Args[4]))
+	case "c05work":
+		os.Exit(mon.C05Work(os.Args[2]))
+	case "c05oneshot":
+		os.Exit(mon.C05OneShot(os.Args[2], os.Args[3]))
 	case "calibrate":
 		switch os.Args[2] {
 		case "C03":
 			mon.CalibrateC03()
 		case "C04":
 			mon.CalibrateC04()
+		case "C14":
+			mon.CalibrateC14()
 		}
 	case "behaviour-hash":
 		mon.BehaviourHash()
